@@ -101,6 +101,8 @@ def gen_sources(ctx, scale):
         out.append(('imports', S.import_snippet(rng)))
     for i in range(2 * scale):
         out.append(('seqassoc', S.seqassoc_snippet(rng)))
+    for i in range(scale):
+        out.append(('deep', S.deep_snippet(rng)))
     styled = []
     for corpus, text in out:
         r = rng.random()
@@ -132,6 +134,8 @@ def keyword(line):
     line = line.strip()
     if not line:
         return 'blank'
+    if line.startswith('&'):
+        return 'continuation'
     if re.match(r'^[A-Za-z_]\w*(\([^=]*\))?(%\w+(\([^=]*\))?)*\s*=[^=]', line):
         return 'assignment'
     m = re.match(r'[A-Za-z]+', line)
@@ -212,7 +216,7 @@ def run(ctx):
         'both applications act on the same parsed IR object; text is compared as printed by fgen (Sourcefile.to_fortran)',
         'sources: generated MiniFortran kernels (ASSOCIATE / array-section / control-flow populations of C29, C30, C01 with '
         'compile-time-decidable conditions added), hand-varied import snippets (module + routine level USE, renames, kinds, members) '
-        'and sequence-association snippets; respelled in mixed case and with grouped declarations',
+        'and sequence-association snippets, deeply nested mixed-case expressions; respelled in mixed case and with grouped declarations',
         'a first application that raises is not a C40 matter (counted, not judged)',
     ]
 
